@@ -196,14 +196,14 @@ def run_workers(modname, fn, seed, tier, nworkers=None, extra=None):
 
 # ------------------------------------------------------------------------------- evidence / replay
 def write_replay(prop, payload):
-    d = os.path.join(VERIF, 'replays', prop)
+    d = os.path.join(os.environ.get('VERIF_OUT', VERIF), 'replays', prop)
     os.makedirs(d, exist_ok=True)
     body = json.dumps(payload, indent=1, sort_keys=True, default=str)
     name = hashlib.sha1(body.encode()).hexdigest()[:12] + '.json'
     path = os.path.join(d, name)
     with open(path, 'w') as f:
         f.write(body)
-    return os.path.relpath(path, VERIF)
+    return os.path.relpath(path, VERIF) if path.startswith(VERIF + os.sep) else path
 
 
 def write_evidence(prop, tier, seed, level, coverage, wall, violations, assumptions=()):
@@ -217,7 +217,7 @@ def write_evidence(prop, tier, seed, level, coverage, wall, violations, assumpti
         'wall_s': round(wall, 2),
         'violations': int(violations),
     }
-    d = os.path.join(VERIF, 'evidence')
+    d = os.path.join(os.environ.get('VERIF_OUT', VERIF), 'evidence')
     os.makedirs(d, exist_ok=True)
     with open(os.path.join(d, prop + '.json'), 'w') as f:
         json.dump(ev, f, indent=1, sort_keys=True, default=str)
